@@ -14,6 +14,7 @@ import (
 	"pgregory.net/rapid"
 	"verif/harness/hx"
 	"verif/harness/sim"
+	"verif/harness/wire"
 )
 
 func oobPayload(end int, ctr int, n int) []byte {
@@ -43,6 +44,15 @@ func TestC19OOB(t *testing.T) {
 		every := rapid.IntRange(1, 4).Draw(rt, "oobEvery")
 		burst := rapid.SampledFrom([]int{1, 1, 2, 5, 40, 3000}).Draw(rt, "burst")
 		maxCalls := rapid.IntRange(1, 60).Draw(rt, "maxCalls")
+		// damaged OOB datagrams: next to some OOB packets the receiver also gets a
+		// correctly sealed frame of the OOB type from its peer's address that stops
+		// short - 0..11 bytes, less than the smallest OOB packet there is. It
+		// must be dropped: no handler call, no effect on the stream, no crash.
+		damageSeed := uint64(0)
+		if rapid.Bool().Draw(rt, "damagedOOB") {
+			damageSeed = rapid.Uint64Range(1, 1<<62).Draw(rt, "damageSeed")
+		}
+		damaged := 0
 		var sentCount, handled, oversize, lostOOB, maxSized, zeroSized, between int
 		var d snmpDelta
 		completed := false
@@ -88,6 +98,19 @@ func TestC19OOB(t *testing.T) {
 						return fmt.Errorf("OOB packet on the wire carries a payload (%d bytes) that end %d never passed to SendOOB", len(pl), e)
 					}
 					allowed[1-e][string(pl)] += f.Copies
+					if h := hx.Hash64(damageSeed, e, len(obs[e].OOBPayloads)); damageSeed != 0 && h%2 == 0 {
+						rest := make([]byte, 2+4+len(pl))
+						binary.LittleEndian.PutUint16(rest, uint16(len(rest)))
+						binary.LittleEndian.PutUint32(rest[2:], cfg.Conv)
+						copy(rest[6:], pl)
+						var nonce [16]byte
+						binary.LittleEndian.PutUint64(nonce[:], h)
+						binary.LittleEndian.PutUint64(nonce[8:], ^h)
+						frame := wire.BuildFECRaw(wire.OOBSeqID, wire.TypeOOB, rest)
+						if s.Net.Deliver(to, p.Addr[e], p.Crypto.Seal(nonce[:], frame[:int(h>>8)%12])) {
+							damaged++
+						}
+					}
 					if f.Copies == 0 {
 						lostOOB++
 					}
@@ -231,6 +254,7 @@ func TestC19OOB(t *testing.T) {
 		addIf(between > 0, "oob_inside_fec_group")
 		addIf(d.FECRecovered > 0, "fec_recovery_used")
 		addIf(burst >= 3000, "burst_beyond_queue_depth")
+		addIf(damaged > 0, "truncated_oob_frames_from_the_peer_address")
 		addIf(handler[0] == 0 || handler[1] == 0, "one_side_without_handler")
 		rec.Add("n_oob_sent", int64(sentCount))
 		rec.Add("n_oob_handled", int64(handled))
